@@ -429,3 +429,5 @@ _quick("C18", "C18_willopts", "text LOCK / UNLOCK followed by every sequence of 
 _quick("C15", "C15_release", "a holder sets a value of 2 symbolic bytes (persistence timing never / default / at once) and its hold ends by release or by expiry (E = 3 s); 0 / 1 / 2 s later another LockId takes the key with APPEND of 1 symbolic byte: no value from before in the reply, the stored value is the appended byte alone", ["-witness", "1"], reach=["end"])
 
 _quick("C13", "C13_manyholds", "one binary connection takes N = 1 / 63 / 64 / 65 / 130 holds on N keys (around and beyond the 64 slots of its free-command array) through the real ProcessParse, optionally lets N requests wait behind them, releases all in the same or reverse order, takes N/2 again, closes: every request answered with one 64-byte frame, no crash, a second connection still served", ["-witness", "1"], reach=["end", "released"])
+
+_quick("C02", "C02_dupwait", "a key of capacity 2 held by Y and Z; LockId X queues two requests (second with the same terms or Rcount 1); Y and Z leave; UNLOCK of X with Rcount 0 must remove everything X holds (key free), a second UNLOCK of X is refused", ["-witness", "1"], reach=["both-granted"])
